@@ -32,6 +32,9 @@ CHECKS = {
    note="Stratified samples of elements; float and double. Trusted: TLC, JVM, BigRat/RFun overrides, recording code."),
 }
 CHECKS.pop(None, None)
+import glob
+for _f in sorted(glob.glob(os.path.join(HERE, 'tools', 'manifest_entries', '*.json'))):
+    CHECKS[os.path.basename(_f)[:-5]] = json.load(open(_f))
 NA_DEFAULT = "check not built yet (work in progress, see DESIGN.md section 9)"
 
 m = {"version": 1, "setup_cmd": "./tools/setup.sh",
